@@ -733,10 +733,203 @@ class HelperHub:
 
 # ------------------------------------------------------------------ misc
 
-def port_base_for(shard, slot=0, base=21000, per_shard=200):
-    """Deterministic, non-overlapping port ranges for parallel shards."""
-    return base + shard * per_shard + slot * Squid.PORTS
+def port_base_for_check(pid, shard, slot=0):
+    """Deterministic, non-overlapping port ranges: per property 340 ports (17 blocks of 20), below the
+    ephemeral range, so that different checks and their shards can run at the same time.
+    shard in 0..15; slot 1 gives a second block only for shard 0 (block 16)."""
+    n = int(re.sub(r'\D', '', pid) or 0)
+    off = int(os.environ.get('VERIF_PORT_OFFSET', '0'))
+    blk = shard if slot == 0 else 16
+    return 10000 + off + n * 340 + blk * Squid.PORTS
+
+
+def run_sharded(ctx, worker, items, nshards=None):
+    """Run worker(shard_index, items_of_that_shard) in forked processes (items are dealt round-robin) and
+    return the list of their return values (must be picklable).  A worker exception becomes HarnessError."""
+    import multiprocessing as mp
+    import traceback as tb
+    nshards = min(nshards or ctx.ncpu, max(1, len(items)))
+    parts = [items[i::nshards] for i in range(nshards)]
+    mpctx = mp.get_context('fork')
+    q = mpctx.Queue()
+
+    def child(i):
+        try:
+            q.put((i, 'ok', worker(i, parts[i])))
+        except HarnessError as e:
+            q.put((i, 'err', 'HarnessError: %s' % e))
+        except BaseException:
+            q.put((i, 'err', tb.format_exc()[-3000:]))
+    procs = [mpctx.Process(target=child, args=(i,)) for i in range(nshards)]
+    for p in procs:
+        p.start()
+    out = [None] * nshards
+    errs = []
+    got = 0
+    while got < nshards:
+        try:
+            i, st, val = q.get(timeout=5)
+        except Exception:
+            if not any(p.is_alive() for p in procs) and q.empty():
+                errs.append('a shard died without reporting')
+                break
+            continue
+        got += 1
+        if st == 'ok':
+            out[i] = val
+        else:
+            errs.append('shard %d: %s' % (i, val))
+    for p in procs:
+        p.join(timeout=30)
+        if p.is_alive():
+            p.kill()
+    if errs:
+        raise HarnessError('; '.join(errs)[:4000])
+    return out
 
 
 def http_date(us):
     return time.strftime('%a, %d %b %Y %H:%M:%S GMT', time.gmtime(us // 1_000_000))
+
+
+# ------------------------------------------------------------------ simple request/response worlds
+
+class OriginConn:
+    def __init__(self, conn, idx):
+        self.c = conn
+        self.idx = idx
+        self.raw = b''          # everything received on this connection
+        self.parsed_upto = 0    # bytes of raw already split into requests
+        self.requests = []      # httpref.Msg of complete requests
+
+
+class Exchange:
+    """What happened during one World.fetch()."""
+
+    def __init__(self):
+        self.client_bytes = b''
+        self.client_eof = False
+        self.client_reset = False
+        self.origin_requests = []     # list of httpref.Msg (complete requests seen by the origin during this fetch)
+        self.origin_raw = b''         # raw bytes the origin received during this fetch (all connections, concatenated)
+        self.response = None          # httpref.Msg parsed from client_bytes
+        self.steps = 0
+
+
+class World:
+    """One Squid instance + one origin listener (port_base+1) played by the driver."""
+
+    def __init__(self, ctx, name, port_base, conf='', **kw):
+        from . import httpref
+        self.httpref = httpref
+        self.sq = Squid(ctx, name, port_base, conf=conf, **kw)
+        self.origin_port = port_base + 1
+        self.origin = Listener(self.origin_port)
+        self.oconns = []
+        self.total_origin_requests = 0
+
+    def start(self):
+        self.sq.start()
+        return self
+
+    def url(self, path):
+        return 'http://127.0.0.1:%d%s' % (self.origin_port, path)
+
+    def hostport(self):
+        return '127.0.0.1:%d' % self.origin_port
+
+    def _origin_step(self, responder, ex):
+        """Accept, read, parse complete requests, answer them.  Returns True if anything happened."""
+        progressed = False
+        for c in self.origin.accept_all():
+            self.oconns.append(OriginConn(c, len(self.oconns)))
+            progressed = True
+        for oc in self.oconns:
+            if oc.c.closed:
+                continue
+            n = oc.c.pump()
+            if n:
+                progressed = True
+                d = oc.c.inbuf
+                oc.c.inbuf = b''
+                oc.raw += d
+                ex.origin_raw += d
+                while True:
+                    m = self.httpref.parse_request(oc.raw[oc.parsed_upto:])
+                    if m.error or not m.complete or m.consumed <= 0:
+                        break
+                    oc.parsed_upto += m.consumed
+                    oc.requests.append(m)
+                    ex.origin_requests.append(m)
+                    self.total_origin_requests += 1
+                    r = responder(m) if responder else None
+                    if r is None:
+                        continue
+                    close = False
+                    if isinstance(r, tuple):
+                        r, close = r[0], r[1] == 'close'
+                    oc.c.send(r)
+                    if close:
+                        oc.c.close()
+                        break
+            if oc.c.eof and not oc.c.closed:
+                oc.c.close()
+                progressed = True
+        return progressed
+
+    def fetch(self, request, responder=None, method=None, client=None, max_steps=40, keep_client=False, done=None):
+        """Send `request` (bytes) on a new (or given) client connection and run the world until the client has a
+        complete response, the connection closes, or nothing happens any more."""
+        ex = Exchange()
+        c = client or self.sq.client()
+        if request:
+            c.send(request)
+        if method is None:
+            method = request.split(b' ', 1)[0].decode('latin1') if request else 'GET'
+        idle_rounds = 0
+        for step in range(max_steps):
+            ex.steps = step + 1
+            self.sq.settle()
+            progressed = self._origin_step(responder, ex)
+            if c.pump():
+                progressed = True
+            ex.client_bytes = c.inbuf
+            m = self.httpref.parse_response(c.inbuf, method, eof=c.eof)
+            if done is not None:
+                if done(ex, m):
+                    break
+            elif (m.complete and not m.error) or c.eof:
+                # let Squid finish bookkeeping for this transaction
+                if not progressed:
+                    break
+            if not progressed:
+                idle_rounds += 1
+                if idle_rounds >= 2:
+                    break
+            else:
+                idle_rounds = 0
+        ex.client_bytes = c.inbuf
+        ex.client_eof = c.eof
+        ex.client_reset = c.reset
+        ex.response = self.httpref.parse_response(c.inbuf, method, eof=c.eof)
+        if not keep_client:
+            c.close()
+            self.sq.settle(1)
+            self._origin_step(None, Exchange())
+        else:
+            ex.client = c
+        return ex
+
+    def close_origin_conns(self):
+        for oc in self.oconns:
+            oc.c.close()
+        self.oconns = []
+        self.sq.settle(1)
+
+    def stop(self):
+        try:
+            self.sq.cleanup()
+        finally:
+            for oc in self.oconns:
+                oc.c.close()
+            self.origin.close()
